@@ -854,3 +854,153 @@ Proof.
   - destruct (modify (segments path) (set_value repaired v) root) as [r'|e] eqn:E; simpl in Hin; eauto.
   - destruct (get root path) as [[? ? ? ? ?|? ?]|e]; simpl in Hin; auto.
 Qed.
+
+Lemma step_root_eq : forall st o, st_root (fst (step repaired st o)) = fst (step_root repaired (st_next st) (st_root st) o).
+Proof. intros. unfold step. destruct (step_root repaired (st_next st) (st_root st) o). reflexivity. Qed.
+
+Lemma step_next : forall q st o, st_next (fst (step q st o)) = S (st_next st).
+Proof. intros. unfold step. destruct (step_root q (st_next st) (st_root st) o). reflexivity. Qed.
+
+Lemma run_next : forall q ops st, st_next (run q st ops) = (List.length ops + st_next st)%nat.
+Proof.
+  induction ops as [|o r IH]; simpl; intros st; [reflexivity|].
+  rewrite IH, step_next. lia.
+Qed.
+
+Lemma run_app : forall q a b st, run q st (a ++ b) = run q (run q st a) b.
+Proof. induction a as [|o r IH]; simpl; intros; [reflexivity | apply IH]. Qed.
+
+(* T3/T4, history form: a parameter that exists after the history and already
+   existed before it (its identity is below the next one to be handed out) was
+   there with the same key / priority / identity, read-only flag, constraint
+   and DEFAULT, and, when read-only, with the same VALUE. *)
+Theorem leaf_history : forall ops st h ro c d v',
+  In (Leaf h ro c d v') (nodes (st_root (run repaired st ops))) -> (h_id h < st_next st)%nat ->
+  exists v, In (Leaf h ro c d v) (nodes (st_root st)) /\ (ro = true -> v' = v).
+Proof.
+  induction ops as [|o r IH]; simpl; intros st h ro c d v' Hin Hid.
+  - exists v'. auto.
+  - apply IH in Hin; [|rewrite step_next; lia].
+    destruct Hin as (v1 & Hin & Hro). rewrite step_root_eq in Hin.
+    apply step_root_leaf_origin in Hin. destruct Hin as [(v & Hv & Hor)|[Hn _]]; [|lia].
+    exists v. split; [exact Hv|]. intros Ht. rewrite (Hro Ht). destruct Hor as [Hor|Hor]; [exact Hor | congruence].
+Qed.
+
+Theorem default_never_changes : forall ops1 ops2 h ro c d v',
+  let st1 := run repaired init ops1 in
+  In (Leaf h ro c d v') (nodes (st_root (run repaired st1 ops2))) -> (h_id h < st_next st1)%nat ->
+  exists v, In (Leaf h ro c d v) (nodes (st_root st1)).
+Proof.
+  intros ops1 ops2 h ro c d v' st1 Hin Hid. destruct (leaf_history ops2 st1 _ _ _ _ _ Hin Hid) as (v & Hv & _). eauto.
+Qed.
+
+Theorem read_only_never_changes : forall ops1 ops2 h c d v',
+  let st1 := run repaired init ops1 in
+  In (Leaf h true c d v') (nodes (st_root (run repaired st1 ops2))) -> (h_id h < st_next st1)%nat ->
+  In (Leaf h true c d v') (nodes (st_root st1)).
+Proof.
+  intros ops1 ops2 h c d v' st1 Hin Hid. destruct (leaf_history ops2 st1 _ _ _ _ _ Hin Hid) as (v & Hv & Hro).
+  rewrite (Hro eq_refl). exact Hv.
+Qed.
+
+(* ... hence a read-only parameter holds its default for ever *)
+Definition ro_at_default (root : param) : Prop :=
+  forall h c d v, In (Leaf h true c d v) (nodes root) -> v = d.
+
+Lemma step_ro_at_default : forall st o, ro_at_default (st_root st) -> ro_at_default (st_root (fst (step repaired st o))).
+Proof.
+  unfold ro_at_default. intros st o H h c d v Hin. rewrite step_root_eq in Hin.
+  apply step_root_leaf_origin in Hin. destruct Hin as [(v0 & Hv & [->|Hf])|[_ ->]]; [eauto | discriminate | reflexivity].
+Qed.
+
+Theorem read_only_value_is_default : forall ops h c d v,
+  In (Leaf h true c d v) (nodes (st_root (run repaired init ops))) -> v = d.
+Proof.
+  intros ops. change (ro_at_default (st_root (run repaired init ops))).
+  assert (G : forall ops st, ro_at_default (st_root st) -> ro_at_default (st_root (run repaired st ops))).
+  { induction ops0 as [|o r IH]; simpl; intros st H; [exact H | apply IH, step_ro_at_default, H]. }
+  apply G. unfold ro_at_default, init. simpl. intros h c d v [H|[]]. discriminate.
+Qed.
+
+(* ================================================================== T5: addressing by dotted key *)
+(* every node below p with the list of keys leading to it ([] = p itself) *)
+Fixpoint paths (p : param) : list (list string * param) :=
+  ([], p) :: match p with
+             | Leaf _ _ _ _ _ => []
+             | Map _ ch => flat_map (fun c => map (fun lx => (pkey c :: fst lx, snd lx)) (paths c)) ch
+             end.
+
+Lemma paths_map_inv : forall h ch l x, In (l, x) (paths (Map h ch)) ->
+  (l = [] /\ x = Map h ch) \/ exists c l', In c ch /\ In (l', x) (paths c) /\ l = pkey c :: l'.
+Proof.
+  simpl. intros h ch l x [H|H]; [inversion H; auto|]. right.
+  apply in_flat_map in H. destruct H as (c & Hc & H). apply in_map_iff in H.
+  destruct H as ([l' x'] & Heq & H). simpl in Heq. inversion Heq; subst. eauto.
+Qed.
+
+Lemma wf_children_nodup : forall n h ch, wf n (Map h ch) -> NoDup (map pkey ch) /\ Forall key_ok (map pkey ch).
+Proof.
+  intros n h ch H. inversion H as [|? ? _ _ Hok]; subst. destruct Hok as (H1 & H2 & _).
+  rewrite <- map_pkey_phdr in *. auto.
+Qed.
+
+Lemma node_at_paths : forall n p l x, wf n p -> In (l, x) (paths p) -> node_at p l = Some x /\ Forall key_ok l.
+Proof.
+  intros n p. induction p as [h ro c d v|h ch IH] using param_ind'; intros l x Hwf Hin.
+  - simpl in Hin. destruct Hin as [Hin|[]]. inversion Hin; subst. simpl. auto.
+  - apply paths_map_inv in Hin. destruct Hin as [[-> ->]|(c & l' & Hc & Hin & ->)]; [simpl; auto|].
+    destruct (wf_children_nodup _ _ _ Hwf) as [Hnd Hk].
+    inversion Hwf as [|? ? _ Hch _]; subst. rewrite Forall_forall in IH, Hch.
+    destruct (IH c Hc l' x (Hch c Hc) Hin) as [Hn Hl].
+    simpl. rewrite (find_child_nodup ch c Hnd Hc). split; [exact Hn|].
+    constructor; [|exact Hl]. rewrite Forall_forall in Hk. apply Hk, in_map, Hc.
+Qed.
+
+(* conversely every addressable node is listed *)
+Lemma paths_node_at : forall l p x, node_at p l = Some x -> In (l, x) (paths p).
+Proof.
+  induction l as [|k r IH]; simpl; intros p x H.
+  - inversion H; subst. destruct x; simpl; auto.
+  - destruct p as [|h ch]; [discriminate|].
+    destruct (find_child k ch) as [c|] eqn:Ec; [|discriminate].
+    simpl. right. apply in_flat_map. exists c. split; [eapply find_child_in, Ec|].
+    apply in_map_iff. exists (r, x). simpl. split; [|apply IH, H].
+    rewrite (find_child_key _ _ _ Ec). reflexivity.
+Qed.
+
+(* extended_key() of a node = the keys from the root down, joined by '.' *)
+Lemma ext_keys_paths : forall p pre,
+  ext_keys pre p = map (fun lx => (String.append pre (join (pkey p :: fst lx)), snd lx)) (paths p).
+Proof.
+  intros p. induction p as [h ro c d v|h ch IH] using param_ind'; intros pre.
+  - reflexivity.
+  - simpl. f_equal. rewrite flat_map_concat_map, flat_map_concat_map, concat_map, map_map. f_equal.
+    apply map_ext_in. intros c Hc. rewrite Forall_forall in IH. rewrite (IH c Hc), map_map.
+    apply map_ext. intros [l x]. simpl. f_equal.
+    change (pkey (Map h ch)) with (h_key h).
+    destruct l as [|b l]; simpl; rewrite append_assoc; reflexivity.
+Qed.
+
+Lemma get_path : forall n root l x,
+  wf n root -> In (l, x) (paths root) -> l <> [] -> get root (join l) = Val x.
+Proof.
+  intros n root l x Hwf Hin Hne. destruct (node_at_paths _ _ _ _ Hwf Hin) as [Hn Hk].
+  unfold get. rewrite segments_join; [rewrite Hn; reflexivity | exact Hne|].
+  eapply Forall_impl; [|exact Hk]. intros k [_ H]. exact H.
+Qed.
+
+(* rel_key: the extended key without the root's own key (lookup paths are
+   relative to the map that get / remove is called on) *)
+Definition rel_key (ek : string) : string := after_dot ek.
+
+Theorem get_by_extended_key : forall n root ek x,
+  wf n root -> has_dot (pkey root) = false ->
+  In (ek, x) (ext_keys EmptyString root) -> ek <> pkey root ->
+  get root (rel_key ek) = Val x.
+Proof.
+  intros n root ek x Hwf Hroot Hin Hne. rewrite ext_keys_paths in Hin.
+  apply in_map_iff in Hin. destruct Hin as ([l y] & Heq & Hin). simpl in Heq. inversion Heq; subst.
+  destruct l as [|k l]; [simpl in Hne; congruence|].
+  unfold rel_key. rewrite join_cons2, after_dot_append by exact Hroot.
+  eapply get_path; eauto. discriminate.
+Qed.
